@@ -18,7 +18,7 @@ import (
 
 func init() { Registry["C15"] = checkC15 }
 
-var c15seps = []string{"", " ", "\t", "'", `"`, `\`, "=", ";", "--", "/*", "*/", "\n", "é", "  ", "' OR '", `" = "`, "password", " with password ", "$", "İ", "K", "/* a\n b */", "*"}
+var c15seps = []string{"", " ", "\t", "'", `"`, `\`, "=", ";", "--", "/*", "*/", "\n", "é", "  ", "' OR '", `" = "`, "password", " with password ", "$", "İ", "K", "/* a\n b */", "*", "[REDACTED]", "REDACTED", "[redacted]"}
 
 type c15stmt struct {
 	toks    []gen.Tok
@@ -141,7 +141,7 @@ func c15RenderX(rg *mon.Rng, toks []gen.Tok, want, wantEnd int, comments bool, e
 				g = []string{"", "", " ", "\n", "\t"}[rg.Intn(5)]
 			}
 			if comments && rg.P(0.3) {
-				g = g + []string{" /* c */ ", " -- c\n", "\n/* x = 'y' */\n", " /* password 'zz' */ ", " /* two\nlines */ ", " /* * ** / */ ", " -- İ\u212A\r\n"}[rg.Intn(7)]
+				g = g + []string{" /* c */ ", " -- c\n", "\n/* x = 'y' */\n", " /* password 'zz' */ ", " /* two\nlines */ ", " /* * ** / */ ", " -- İ\u212A\r\n", " /* was: set password for u = [REDACTED] */ ", " -- [REDACTED]\n"}[rg.Intn(9)]
 			}
 			if i == exoticAt {
 				g = c15Exotic[rg.Intn(len(c15Exotic))]
